@@ -27,6 +27,7 @@ var replayFamilies = map[string]replayFamily{
 	"parse":  {"parse", "parse_test.go", "TestStickvcReplayParse"},
 	"value":  {".", "value_test.go", "TestStickvcReplayValue"},
 	"attr":   {".", "attr_test.go", "TestStickvcReplayAttr"},
+	"exec":   {"twig", "exec_test.go", "TestStickvcReplayExec"},
 }
 
 type ReplayFile struct {
@@ -103,6 +104,10 @@ func writeReplay(e *Engine, pc *PropConfig, o *Obligation, header *Universe, dir
 		rf.Candidates = cands
 		cb, _ := json.Marshal(cands)
 		rf.Env = map[string]string{"STICKVC_CANDIDATES": string(cb), "STICKVC_SKIP": knownSkip(pc.ID)}
+		if pc.Replay == "exec" {
+			wb, _ := json.Marshal(pc.Witnesses)
+			rf.Env["STICKVC_INPUTS"] = string(wb)
+		}
 		if pc.Replay == "parse" {
 			os.MkdirAll(dir, 0o755)
 			rf.Env["STICKVC_LAST"] = filepath.Join(dir, "last_input.txt")
